@@ -828,6 +828,10 @@ func main() {
 	os.MkdirAll(*out, 0o755)
 	config.SetDefaultProxy("")
 	r := cq.Rand()
+	if *prop == "C17" {
+		lcMain(os.Args[1], out, n, casef, r)
+		return
+	}
 	if *prop == "C01" || *prop == "C03" {
 		piecesMain(os.Args[1], out, n, casef, r)
 		return
@@ -1020,6 +1024,64 @@ func main() {
 		"ops":                 ops,
 		"samples":             samples,
 		"shards":              nshard,
+	}
+	b, _ := json.MarshalIndent(meta, "", " ")
+	os.WriteFile(filepath.Join(*out, "meta.json"), b, 0o644)
+}
+
+func pipeNew() (*pipe.End, *pipe.End) { return pipe.New() }
+
+func lcMain(mode string, out *string, n *int, casef *string, r *rand.Rand) {
+	var cases []*lcCase
+	switch mode {
+	case "gen":
+		for i := 0; i < *n; i++ {
+			cases = append(cases, genLc(r, i))
+		}
+	case "replay":
+		data, _ := os.ReadFile(*casef)
+		var wrap struct {
+			Case lcCase `json:"case"`
+		}
+		json.Unmarshal(data, &wrap)
+		for i := 0; i < 3; i++ {
+			c := wrap.Case
+			c.Calls = nil
+			cases = append(cases, &c)
+		}
+	}
+	var terms []string
+	kinds := map[string]int{}
+	distinct := map[string]bool{}
+	evals := 0
+	for _, c := range cases {
+		runLc(c)
+		terms = append(terms, lcTerm(c))
+		kinds[c.Point]++
+		for _, x := range c.Calls {
+			kinds[x.Name+"/"+x.Result]++
+			distinct[fmt.Sprintf("%s/%s/%s/%d", c.Point, x.Name, x.Result, c.Peers)] = true
+		}
+		evals += len(c.Calls) + 1
+	}
+	jf, _ := os.Create(filepath.Join(*out, "cases.jsonl"))
+	for _, c := range cases {
+		b, _ := json.Marshal(c)
+		jf.Write(append(b, '\n'))
+	}
+	jf.Close()
+	var sb bytes.Buffer
+	sb.WriteString("From Coq Require Import String.\nFrom Storrent Require Import Base.Bytes Check.LifecycleCheck.\nOpen Scope N_scope.\n")
+	sb.WriteString("Definition cases : list lccase := [\n" + strings.Join(terms, ";\n") + "\n].\n")
+	sb.WriteString("Definition BM := Eval vm_compute in bad_monitor_lc cases.\nPrint BM.\n")
+	os.WriteFile(filepath.Join(*out, "shard000.v"), sb.Bytes(), 0o644)
+	meta := map[string]interface{}{
+		"evaluations":         evals,
+		"distinct_nontrivial": len(distinct),
+		"rule":                "one evaluation = one call of an exported operation of a running torrent (real main loop, real peers) issued before, concurrently with, or queued behind the torrent's deletion, with a 5 s watchdog; plus one audit of what is left after each deletion (listing, peer connections, readers, memory, goroutines); distinct = new (stop point, operation, outcome, number of peers)",
+		"kinds":               kinds,
+		"samples":             cases[:min(3, len(cases))],
+		"shards":              1,
 	}
 	b, _ := json.MarshalIndent(meta, "", " ")
 	os.WriteFile(filepath.Join(*out, "meta.json"), b, 0o644)
